@@ -33,7 +33,12 @@ type CollationOrderKey[K chars | []rune] struct {
 func (cok *CollationOrderKey[K]) Transform(k K) ([]byte, []byte) {
 	cok.src = k
 	b := []byte(string(k))
-	return b, cok.c.Key(cok.buf, b)
+
+	// the buffer is only scratch space: reset it so that it does not grow with
+	// every call, and hand out a copy because leaves keep the key
+	cok.buf.Reset()
+	colKey := cok.c.Key(cok.buf, b)
+	return b, append(make([]byte, 0, len(colKey)), colKey...)
 }
 func (cok *CollationOrderKey[K]) Restore(b []byte) K { return cok.src }
 
